@@ -164,6 +164,13 @@ func seqHistory(r *ev.Run, id string, i int) {
 		}
 		trace = append(trace, "(the sink's Sync always fails)")
 		r.Count("histories_over_a_sink_whose_sync_fails", 1)
+	} else if g.P(1, 6) {
+		// ... or fails a few times and then works again: later syncs must reach the sink as before
+		for k := g.Range(1, 2); k > 0; k-- {
+			sink.SyncErrs = append(sink.SyncErrs, errSyncRefused)
+		}
+		trace = append(trace, fmt.Sprintf("(the sink's first %d Syncs fail)", len(sink.SyncErrs)))
+		r.Count("histories_over_a_sink_whose_sync_fails_transiently", 1)
 	}
 	nops := g.Range(5, 60)
 	fail := func(class, msg string) {
@@ -224,8 +231,10 @@ func seqHistory(r *ev.Run, id string, i int) {
 			r.Count("ops:write", 1)
 		case op == 6 || op == 7: // Sync
 			trace = append(trace, "Sync")
-			if err := b.Sync(); (err != nil) != syncFails {
-				fail("bws-sync-result", fmt.Sprintf("Sync returned %v (sink sync fails: %v)", err, syncFails))
+			pending := len(sink.SyncErrs)
+			err := b.Sync()
+			if refused := pending > len(sink.SyncErrs); (err != nil) != refused {
+				fail("bws-sync-result", fmt.Sprintf("Sync returned %v (the sink's Sync refused during this call: %v)", err, refused))
 				return
 			}
 			if m := st.flushed(sink, "Sync"); m != "" {
@@ -285,8 +294,9 @@ func seqHistory(r *ev.Run, id string, i int) {
 			r.Count("ops:tick", 1)
 		default: // Stop (possibly repeated)
 			trace = append(trace, "Stop")
+			pending := len(sink.SyncErrs)
 			err := b.Stop()
-			if err != nil && !(syncFails && strings.Contains(err.Error(), errSyncRefused.Error())) {
+			if err != nil && !(pending > len(sink.SyncErrs) && strings.Contains(err.Error(), errSyncRefused.Error())) {
 				fail("bws-stop-result", fmt.Sprintf("Stop returned %v", err))
 				return
 			}
